@@ -1607,6 +1607,17 @@ def m_option_eq(ex, st, call, args):
     strip = lambda x: x[1] if x[0] == "&" else x
     if (ex.fold_ground_eq or ex.assume_reflexive) and strip(a[3][0]) == strip(b[3][0]):
         return _ret(st, ("const", True))
+
+    def ground(t, d=0):
+        if not isinstance(t, tuple) or d > 20:
+            return not isinstance(t, tuple)
+        if t and t[0] == "const":
+            return not isinstance(t[1], float) or t[1] == t[1]
+        if t and t[0] in ("adt", "array", "tuple", "&"):
+            return all(ground(x, d + 1) for x in t[1:])
+        return all(isinstance(x, str) or ground(x, d + 1) for x in t) if t and not isinstance(t[0], str) else False
+    if ex.fold_ground_eq and ground(strip(a[3][0])) and ground(strip(b[3][0])):
+        return _ret(st, ("const", False))       # two different ground values
     return NotImplemented
 
 
